@@ -153,7 +153,7 @@ def cargo_layouts(ck):
 
 
 def run(ck):
-    ck.prove(["AsModel.Theorems.C18"])
+    ck.prove(["AsModel.Theorems.C18", "AsModel.Theorems.C06Report"])
     ck.build_harness("rt")
     cases = []
     hi = 2 if ck.tier == "quick" else 3
